@@ -37,7 +37,8 @@ func StatOf(n fsmodel.Node, firstOfGroup map[int]string) *types.Stat {
 	case fsmodel.Char, fsmodel.Block:
 		st.Devmajor, st.Devminor = int64(n.Major), int64(n.Minor)
 	}
-	if n.HL > 0 && n.Kind != fsmodel.Dir && firstOfGroup != nil {
+	// a symlink inode with several names is announced as what it is: a symlink with its target
+	if n.HL > 0 && n.Kind != fsmodel.Dir && n.Kind != fsmodel.Symlink && firstOfGroup != nil {
 		if f, ok := firstOfGroup[n.HL]; ok {
 			st.Linkname = f
 		} else {
